@@ -22,17 +22,141 @@ from serif.alias_tracker import _ALIAS_TRACKER                 # noqa: E402
 NONE_V, FLOAT_V = -1, 5
 
 
+PALETTE = "plain"          # "collide": abstract 0 / 1 become -1 / -2, whose hash() collide (also as floats)
+
+
 def conc(x, kind):
     if x == NONE_V:
         return None
     if x == FLOAT_V:
         return 5.5
+    if PALETTE == "collide":
+        x = {0: -1, 1: -2}.get(x, x)
     return float(x) if kind == "float" else x
 
 
 def conc_vals(vals):
     kind = "float" if FLOAT_V in vals else "int"
     return [conc(x, kind) for x in vals]
+
+
+# ------------------------------------------------------------------ observations (read-only operation families)
+def _cap(fn):
+    try:
+        return _norm(fn())
+    except Exception as ex:      # noqa: BLE001 - the class is part of the observation
+        return "raised " + type(ex).__name__
+
+
+def _norm(x):
+    if isinstance(x, Table):
+        return {"names": x.column_names(), "cols": [[repr(v) for v in c] for c in x.cols()], "len": len(x)}
+    if isinstance(x, Vector):
+        return {"vals": [repr(v) for v in x], "name": x.name}
+    if isinstance(x, (list, tuple)):
+        return [_norm(v) for v in x]
+    if isinstance(x, float) and x != x:
+        return "nan"
+    if isinstance(x, (int, float, str, bool)) or x is None:
+        return repr(x)
+    return repr(x)
+
+
+def _partner(v):
+    """a vector equal to v except at positions where a hash-colliding different value exists"""
+    swap = {-1: -2, -2: -1, -1.0: -2.0, -2.0: -1.0, 0: 2 ** 61 - 1}
+    vals = list(v)
+    return Vector([swap.get(x, x) if (x is not None and not isinstance(x, bool)) else x for x in vals])
+
+
+def fresh_of(obj, keep_dtype=True):
+    """an object freshly built from obj's plain values (same names; same declared dtypes unless keep_dtype is off -
+    the fingerprint must not depend on the dtype either)"""
+    def vec(c):
+        if keep_dtype and c.schema() is not None:
+            return Vector(list(c), dtype=c.schema(), name=c.name)
+        return Vector(list(c), name=c.name)
+    if isinstance(obj, Table):
+        return Table([vec(c) for c in obj.cols()])
+    return vec(obj)
+
+
+def _vec_probes(fam):
+    if fam == "unary":
+        return [lambda v: -v, lambda v: abs(v), lambda v: +v]
+    if fam == "stats":
+        return [lambda v: v.sum(), lambda v: v.mean(), lambda v: v.stdev(), lambda v: v.min(), lambda v: v.max(),
+                lambda v: v.any(), lambda v: v.all(), lambda v: len(v)]
+    if fam == "na":
+        return [lambda v: v.isna(), lambda v: v.dropna(), lambda v: v.fillna(9), lambda v: v.dropna().schema().nullable]
+    if fam == "sort":
+        return [lambda v: v.sort_by(), lambda v: v.sort_by(reverse=True), lambda v: v.sort_by(na_last=False), lambda v: v.unique()]
+    if fam == "cmp":
+        return [lambda v: v == _partner(v), lambda v: v != _partner(v), lambda v: v <= _partner(v),
+                lambda v: v == Vector(list(v)), lambda v: v[v == _partner(v)]]
+    if fam == "fp":
+        return [lambda v: v.fingerprint()]
+    if fam == "repr":
+        return [lambda v: repr(v)]
+    raise Diverged("unknown vector observation " + fam)
+
+
+def _sort_twice(t):
+    a = t.sort_by(t.cols()[0])
+    b = t.sort_by(t.cols()[0])
+    return [a, b, a is not b and all(x is not y for x in a.cols() for y in b.cols())]
+
+
+def _join(kind, expect, as_right=True):
+    def probe(t):
+        other = fresh_of(t)
+        k_other, k_t = other.cols()[0], t.cols()[0]
+        if as_right:
+            return getattr(other, kind)(t, left_on=k_other, right_on=k_t, expect=expect)
+        return getattr(t, kind)(other, left_on=k_t, right_on=k_other, expect=expect)
+    return probe
+
+
+def _tab_probes(fam, t0):
+    if fam == "sort":
+        return [lambda t: t.sort_by(t.cols()[0]), lambda t: t.sort_by(t.cols()[0], reverse=True),
+                lambda t: t.sort_by([t.cols()[0], t.cols()[-1]], reverse=[True, False]), _sort_twice]
+    if fam == "agg":
+        return [lambda t: t.aggregate(over=t.cols()[0], sum_over=t.cols()[-1], mean_over=t.cols()[-1], count_over=t.cols()[-1]),
+                lambda t: t.window(over=t.cols()[0], sum_over=t.cols()[-1], max_over=t.cols()[-1]),
+                lambda t: t.aggregate(over=t.cols()[0], sum_over=[t.cols()[-1], t.cols()[-1] * 2]),
+                lambda t: t.window(over=t.cols()[0], mean_over=t.cols()[-1])]
+    if fam == "join":
+        # the expect words in an order in which an earlier lenient call must not relax a later strict one
+        return [_join("inner_join", "many_to_many"), _join("inner_join", "many_to_one"), _join("join", "many_to_many"),
+                _join("join", "one_to_one"), _join("full_join", "one_to_many"), _join("full_join", "many_to_one"),
+                _join("inner_join", "one_to_many", as_right=False), _join("join", "many_to_one", as_right=False)]
+    if fam == "select":
+        names = [n for n in t0.column_names() if n is not None]
+        keys = [("a",), ("b",), ("a", "b"), ("zz",)] + ([tuple(names)] if names else [])
+        return [(lambda t, k=k: t[k]) for k in keys] + [lambda t: t[0:1], lambda t: t[[True] * len(t)],
+                                                         lambda t: t["a"], lambda t: t["b"]]
+    if fam == "iter":
+        return [lambda t: [[list(a), list(b)] for a in t for b in t], lambda t: [list(t[i]) for i in range(len(t))],
+                lambda t: [list(r) for r in t], lambda t: len(t), lambda t: t.shape]
+    if fam == "repr":
+        return [lambda t: repr(t)]
+    if fam == "names":
+        base = set(dir(Table()))
+        return [lambda t: t.column_names(), lambda t: sorted(set(dir(t)) - base),
+                lambda t: [[i for i, c in enumerate(t.cols()) if getattr(t, a) is c] for a in sorted(set(dir(t)) - base)]]
+    if fam == "fp":
+        return [lambda t: t.fingerprint()]
+    raise Diverged("unknown table observation " + fam)
+
+
+def observe(obj, fam, make=None):
+    """results of one family of read-only operations, normalised for comparison.  Without `make` all probes run on
+    `obj` itself, in order (so a memo filled by one probe is there for the next); with `make` (the baseline) every
+    single probe gets a brand-new object built from the current plain values, so no two probes share any history."""
+    probes = _tab_probes(fam, obj) if isinstance(obj, Table) else _vec_probes(fam)
+    get = (lambda: obj) if make is None else make
+    return [_cap(lambda p=p: p(get())) for p in probes]
 
 
 class Diverged(Exception):
@@ -223,6 +347,22 @@ class World:
             t, i = a["x"], a["y"] - 1
             old = self.names(t)[i]
             self.tab[t].rename_column(old, a["nm"])
+            return "Ok"
+        if act == "Observe":
+            fam = a["nm"]
+            x = a["x"]
+            obj = self.tab[x] if x >= 100 else self.obj(x)
+            got = observe(obj, fam)
+            want = observe(obj, fam, make=lambda: fresh_of(obj, keep_dtype=(fam != "fp")))
+            if fam == "iter" and x >= 100:
+                n = len(obj)
+                cols_ = [[repr(v) for v in c] for c in obj.cols()]
+                rows_ = [[c[i] for c in cols_] for i in range(n)]
+                if got[0] != [[ra, rb] for ra in rows_ for rb in rows_] and not isinstance(got[0], str):
+                    raise Mismatch("obs_iter", got[0], [[ra, rb] for ra in rows_ for rb in rows_])
+            if got != want:
+                k = next((i for i, (g, w_) in enumerate(zip(got, want)) if g != w_), 0)
+                raise Mismatch("obs_" + fam, {"on the object with a history": got[k]}, {"on a freshly built equal object": want[k]})
             return "Ok"
         if act == "Dir":
             tab = self.tab[a["x"]]
@@ -586,27 +726,30 @@ def replay_case(case, variant):
     return fails
 
 
-def replay(cases_path, out_path, nvariants):
+def replay(cases_path, out_path, nvariants, palettes=("plain",)):
+    global PALETTE
     fails, executed, per = [], 0, {}
     forms_seen = {}
     with open(cases_path) as f:
         for n, line in enumerate(f):
             case = json.loads(line)
-            for var in range(nvariants):
-                variant = case.get("variant", n * 3 + var * 5)
+            for var in range(nvariants * len(palettes)):
+                PALETTE = case.get("palette", palettes[var % len(palettes)])
+                variant = case.get("variant", n * 3 + (var // len(palettes)) * 5)
                 fs = replay_case(case, variant)
                 executed += 1
                 for clause, k, obs, exp, forms in fs:
                     per[clause] = per.get(clause, 0) + 1
                     if per[clause] <= 25:
-                        fails.append({"clause": clause, "case": case, "variant": variant, "step": k,
+                        fails.append({"clause": clause, "case": case, "variant": variant, "palette": PALETTE, "step": k,
                                       "observed": obs, "expected": exp, "forms": forms})
     json.dump({"executed": executed, "failures": fails, "per_clause": per}, open(out_path, "w"), default=str)
 
 
 if __name__ == "__main__":
     if sys.argv[1] == "replay":
-        replay(sys.argv[2], sys.argv[3], int(sys.argv[4]) if len(sys.argv) > 4 else 1)
+        replay(sys.argv[2], sys.argv[3], int(sys.argv[4]) if len(sys.argv) > 4 else 1,
+               tuple(sys.argv[5].split(",")) if len(sys.argv) > 5 else ("plain",))
     else:
         import drv_heap2
         drv_heap2.main(sys.argv)
